@@ -22,7 +22,7 @@ def tu_check(tu):
 def run(tier="quick", seed=0, use_cache=True):
     res = engine.Result("C14")
     res.rules = ["CMP-EXIT", "ITER-FINI", "CMP-AFTER-COMMIT", "GROW-ROLLBACK", "LOCAL-REF",
-                 "PY-CMP-AFTER-COMMIT", "CLEAR-THEN-FILL"]
+                 "PY-CMP-AFTER-COMMIT", "CLEAR-THEN-FILL", "PY-CMP-SWALLOW"]
     res.explanation = (
         "Path rules over the clang CFG of every function of the 22 "
         "translation units that compares keys or owns a SetIteration: from "
@@ -39,7 +39,9 @@ def run(tier="quick", seed=0, use_cache=True):
         "returns with a partial change; and no operation empties its own "
         "container and then rebuilds it through calls from which a key "
         "comparison is reachable (CLEAR-THEN-FILL, object-key units; state "
-        "loaders are CONV-BEFORE-MUT's). What the container holds after the "
+        "loaders are CONV-BEFORE-MUT's); no Python `try` whose handler answers "
+        "instead of re-raising encloses a call into the comparing layer "
+        "(PY-CMP-SWALLOW). What the container holds after the "
         "n-th comparison of a concrete operation fails is not decided.")
     res.assumptions = ["comparison error exits are dead code in native-key families (constant-false condition) and are pruned there"]
     out = engine.map_tus("sa.props.C14", "tu_check", use_cache=use_cache)
@@ -61,6 +63,7 @@ def run(tier="quick", seed=0, use_cache=True):
     res.floor("calls that empty the function's own container (object-key units)", tot.get("clear_sites", 0), 5 * 5)
     res.count("CLEAR-THEN-FILL", tot.get("clear_sites", 0))
     cmpexc.py_rules(res)
+    cmpexc.py_swallow(res)
     res.units = {"translation_units": len(out)}
     res.samples = [
         {"rule": "CMP-EXIT", "obligation": "BUCKET_SEARCH(i, cmp, self, key, goto Done) in _bucket_set: Done returns result == -1 without PyErr_Clear"},
